@@ -647,7 +647,7 @@ func TestFaults(t *testing.T) {
 	w := sup.NewWorker("c08")
 	defer w.Close()
 	stride := ev.N(5, 1)
-	ev.Check(t, "faults", 4, 30, func(rt *rapid.T) {
+	ev.Check(t, "faults", 4, 10, func(rt *rapid.T) {
 		var frames []Frame
 		var runIDs []string
 		v1 := rapid.IntRange(0, 4).Draw(rt, "v1") == 0
